@@ -37,6 +37,13 @@ type half struct {
 	failAt   int64 // inject rerr once consumed reaches failAt (<0: never)
 	failErr  error
 	failOnce bool          // the injected error is transient: reported once, then the stream goes on
+	// a stream may hand out its last bytes together with io.EOF (QUIC does when the FIN arrives with the data)
+	eofWithData bool
+	// writer-side fault: the write that would take the total past wfailAt-1 bytes accepts only the bytes up to
+	// there and returns wfailErr (0: never); transient (wfailOnce: the stream goes on afterwards) or permanent
+	wfailAt   int64
+	wfailErr  error
+	wfailOnce bool
 	wake     chan struct{} // closed+replaced on every change, for unmanaged readers
 	onFault  func(kind string)
 }
@@ -56,6 +63,24 @@ func (h *half) write(b []byte) (int, error) {
 	}
 	if h.closed {
 		return 0, net.ErrClosed
+	}
+	if h.wfailAt > 0 && h.total+int64(len(b)) >= h.wfailAt {
+		n := int(h.wfailAt - 1 - h.total)
+		if n < 0 {
+			n = 0
+		}
+		h.buf = append(h.buf, b[:n]...)
+		h.total += int64(n)
+		err := h.wfailErr
+		h.wfailAt = 0
+		if !h.wfailOnce {
+			h.werr = err
+		}
+		if h.onFault != nil {
+			h.onFault("stream-write-error-at-offset")
+		}
+		h.signal()
+		return n, err
 	}
 	h.buf = append(h.buf, b...)
 	h.total += int64(len(b))
@@ -104,6 +129,10 @@ func (h *half) read(b []byte) (int, error) {
 			copy(b, h.buf[:n])
 			h.buf = h.buf[n:]
 			h.consumed += int64(n)
+			if h.eofWithData && h.closed && len(h.buf) == 0 {
+				h.mu.Unlock()
+				return n, io.EOF
+			}
 			h.mu.Unlock()
 			return n, nil
 		}
